@@ -86,7 +86,18 @@ def _all_key_tuples(d):
     return [list(p) for r in range(n + 1) for comb in combinations(range(n), r) for p in permutations(comb)]
 
 
+def _big_cases():
+    """d=6, dense operands: output coefficients that are sums of more than 32 terms (printed / split / bracketed differently by a
+    code generator than the short sums every sampled case produces)."""
+    full = S.canon_sorted(range(64))
+    for n_, op in enumerate(OPS):
+        sig = [[1, 1, 1, 1, 1, 1], [1, -1, 1, 1, -1, 1]][n_ % 2]
+        yield {"cfg": {"sig": sig, "start": None, "basis": None}, "op": op, "a": {"cls": "enum", "keys": list(full), "vals": None},
+               "b": {"cls": "enum", "keys": list(full if n_ % 3 else full[::-1]), "vals": None}, "rel": "enum", "mode": "generic", "cse": n_ % 2 == 0}
+
+
 def enumerate_cases(tier):
+    yield from _big_cases()
     dmax = 1 if tier == "quick" else 2
     i = 0
     for d in range(dmax + 1):
@@ -182,6 +193,19 @@ def evaluate(case):
         if not ok:
             raise Violation("definition", op, f"alg.register(lambda a: a.{op}(3))(a) with keys {ka}: {why}", observed=kd.show(gr), expected=kd.show(er))
         counters["checked:registered-literal"] = 1
+    # symbolic operands (symbols a1, a2, a12, ... b1, ...), the symbolic product then evaluated by a keyword call
+    if case["mode"] == "frac" and ref.d <= 4 and 1 <= len(ka) <= 6 and 1 <= len(kb) <= 6 and not case.get("graded"):
+        try:
+            sc = kd.sym_call(alg, lambda a, b: getattr(a, op)(b), [("a", ka, va), ("b", kb, vb)])
+        except Violation:
+            raise
+        except Exception as e:
+            raise Violation("definition", op, f"symbolic a.{op}(b) evaluated by keyword call raised {type(e).__name__}: {e}", exc=type(e).__name__)
+        ok, why = kd.elem_equal({k: kd.plain(v) for k, v in kd.to_dict(sc, op=op).items()}, exp, 1e-9)
+        if not ok:
+            raise Violation("definition", op, f"symbolic a.{op}(b) (keys {ka} x {kb}) called with keyword values: {why}",
+                            observed=kd.show(kd.to_dict(sc)), expected=kd.show(exp))
+        counters["checked:symbolic-keyword-call"] = 1
     # consequences on kingdon's own outputs
     gpk = kd.to_dict(_call(lambda: x * y, "consistent-with-gp", "gp"), op="gp")
     if op in ("cp", "acp"):
